@@ -172,6 +172,11 @@ def one_multiset(ctx, shard, k, rng):
                 c.feature("epoch:empty-row-with-tiny-buffer")
             kw = dict(ordered=False, symmetric_upper=symm, mergebuf=mergebuf, max_merge=max_merge,
                       ensure_sorted=ensure_sorted, columns=["count", "score"] if two_cols else None)
+            tdir = None
+            if x % 5 == 4:
+                tdir = ctx.newdir()                      # temporary files go to another directory
+                kw["temp_dir"] = tdir
+                c.feature("option:temp_dir")
             if float_counts:
                 kw["dtypes"] = {"count": np.float64}
                 c.feature("counts:float-fractional")
@@ -204,6 +209,10 @@ def one_multiset(ctx, shard, k, rng):
             c.check(not left, "temp-file-outlives-success", f"temporary file(s) left after success: {left}")
             c.check(sorted(os.listdir(d)) == ["out.cool"], "temp-file-outlives-success",
                     f"output directory contains {sorted(os.listdir(d))}")
+            if tdir is not None:
+                c.check(os.listdir(tdir) == [], "temp-file-outlives-success", f"temp_dir still contains {os.listdir(tdir)}")
+                c.check(all(p.startswith(tdir) for p in _AUDIT["paths"]), "temp_dir-option-ignored",
+                        f"temporary files were not created under temp_dir: {_AUDIT['paths']}")
             c.check(len(_AUDIT["paths"]) >= 1, "harness:no-temp-file-observed", "audit hook saw no temp file")
             if nck >= 2 and total:
                 c.nontrivial(repr(bt), repr(desc["chunks"]), mergebuf, max_merge, symm)
